@@ -2928,6 +2928,10 @@ def gen_gtf_format():
             if k.endswith("_fmt"):
                 _fmt_directives(v)
             out.append("def %s : String := %s" % (k, _lean_str_esc(v)))
+    out.append("\nend IsoVerif.Gen\n")
+    return "\n".join(out), info
+
+
 # ----------------------------------------------------------------------------------------------
 # C15 / C05 / C08 (read-level printers): the event-name table and the structure of match_subtype_to_str /
 # match_subtype_to_str_with_additional_info (src/isoform_assignment.py), the header lines of read_assignments.tsv and
